@@ -188,6 +188,18 @@ pub fn is_same_file(src: &Path, dest: &Path) -> Result<bool> {
     Ok(same)
 }
 
+/// Is `path` an existing directory (following symlinks)? Unlike
+/// `Path::is_dir()`, a lookup that fails for any reason other than
+/// the entry not being there is an error rather than a "no": the
+/// answer decides where files are copied to.
+pub fn is_dir_checked(path: &Path) -> Result<bool> {
+    match path.metadata() {
+        Ok(m) => Ok(m.is_dir()),
+        Err(e) if matches!(e.raw_os_error(), Some(libc::ENOENT) | Some(libc::ENOTDIR)) => Ok(false),
+        Err(e) => Err(e.into()),
+    }
+}
+
 /// Copy a file. This differs from [std::fs::copy] in that it looks
 /// for sparse blocks and skips them.
 pub fn copy_file(from: &Path, to: &Path) -> Result<u64> {
